@@ -4,7 +4,7 @@
     (lifting) and Proofs/LockTableInst.v (the table regenerated from the
     current source, re-checked on every run). *)
 From Coq Require Import List String Bool Arith.
-From AGH Require Import Base.Conc Model.Guards Proofs.Conc Proofs.LockTable Proofs.LockTablePairs Gen.LockTable Proofs.LockTableInst.
+From AGH Require Import Base.Conc Model.Guards Proofs.Conc Proofs.LockTable Proofs.LockTablePairs Proofs.LockTableWhole Gen.LockTable Proofs.LockTableInst.
 Import ListNotations.
 Local Open Scope string_scope.
 Local Open Scope list_scope.
@@ -162,6 +162,120 @@ Example C05_cycle_example :
   cycle [ab; ba] /\ cycle [ll] /\ ~ cycle [ab].
 Proof. exact cycle_example. Qed.
 Print Assumptions C05_cycle_example.
+
+(** Whole-table form (round 3): the threads conform to the WHOLE table
+    extracted from the current source (every access is one of its access sites
+    with at least the locks listed there, every nested acquisition one of its
+    acquired-while-held pairs), listed findings included.
+
+    Nothing is listed for the current source, so the statement in force is the
+    strongest one: for any number of such threads and any schedule no reachable
+    state has two threads at conflicting accesses to a guarded field and no
+    reachable state is deadlocked; and the extracted acquired-while-held
+    relation has no cycle at all (re-entrant acquisitions are cycles of length
+    one).  It is stated with the emptiness of the list as a premise and as a
+    computed test, so that the instance stays provable on the day a finding is
+    listed; [nothing_listed known_keys] evaluates to [true] today (see the
+    evidence, lock_table.known_findings_listed = []). *)
+Theorem C05_current_source_safe :
+  known_keys = [] ->
+  (forall progs,
+     Forall (fun p => conforms accesses [] p = true /\ conforms_order lock_order [] p = true) progs ->
+     forall s, reachable (init progs) s -> ~ race s /\ ~ deadlocked s) /\
+  (forall c, incl c lock_order -> ~ cycle c).
+Proof. exact current_source_safe. Qed.
+Print Assumptions C05_current_source_safe.
+
+Theorem C05_current_source_safe_now :
+  if nothing_listed known_keys then
+    (forall progs,
+       Forall (fun p => conforms accesses [] p = true /\ conforms_order lock_order [] p = true) progs ->
+       forall s, reachable (init progs) s -> ~ race s /\ ~ deadlocked s) /\
+    (forall c, incl c lock_order -> ~ cycle c)
+  else True.
+Proof. exact current_source_safe_now. Qed.
+Print Assumptions C05_current_source_safe_now.
+
+(** With listed pairs: a deadlock is reachable only if some thread GOES THROUGH
+    a listed pair: its program is [d ++ Acq l m :: r], it holds [y] after [d],
+    [o] is a pair (y, l) of the extracted relation listed as a known finding,
+    and so is every other pair (y, l).  ([C05_only_listed_lock_cycles] lifted
+    through [C05_ranked_no_deadlock] on the sub-order without the listed
+    pairs.) *)
+Theorem C05_deadlock_goes_through_listed_pair :
+  forall progs, Forall (fun p => conforms_order lock_order [] p = true) progs ->
+  forall s, reachable (init progs) s -> deadlocked s ->
+  exists p, In p progs /\
+  exists d l m r y o,
+    p = d ++ Acq l m :: r /\
+    In y (held_after [] d) /\
+    In o lock_order /\ fst (o_held o) = fst y /\ fst (o_acq o) = l /\
+    listed known_keys (order_key o) = true /\
+    (forall o', In o' lock_order -> fst (o_held o') = fst y -> fst (o_acq o') = l ->
+                listed known_keys (order_key o') = true).
+Proof. exact deadlock_goes_through_listed_pair. Qed.
+Print Assumptions C05_deadlock_goes_through_listed_pair.
+
+(** Generic in the table and the list. *)
+Theorem C05_deadlock_uses_listed_pair : forall rank known ord,
+  forallb (order_ok rank) (checked_order known ord) = true ->
+  forall progs, Forall (fun p => conforms_order ord [] p = true) progs ->
+  forall s, reachable (init progs) s -> deadlocked s ->
+  exists p, In p progs /\ uses_listed known ord [] p.
+Proof. exact deadlock_uses_listed_pair. Qed.
+Print Assumptions C05_deadlock_uses_listed_pair.
+
+Theorem C05_whole_table_safe : forall ro rank tbl ord,
+  forallb (access_ok_ro ro) (checked [] tbl) = true ->
+  forallb (order_ok rank) (checked_order [] ord) = true ->
+  (forall progs,
+     Forall (fun p => conforms tbl [] p = true /\ conforms_order ord [] p = true) progs ->
+     forall s, reachable (init progs) s -> ~ race s /\ ~ deadlocked s) /\
+  (forall c, incl c ord -> ~ cycle c).
+Proof. exact whole_table_safe. Qed.
+Print Assumptions C05_whole_table_safe.
+
+(** Non-vacuity: with one listed ABBA pair both threads conform to the whole
+    order, the first also to the checked one, and the second goes through the
+    listed pair (the deadlock itself is [C05_deadlock_possible]); a small table
+    satisfies the premises of [C05_whole_table_safe] with a conforming thread;
+    and a thread shaped like POST /control/clients/add conforms to the whole
+    real table. *)
+Example C05_uses_listed_example :
+  let ab := OrderPair "r" "f" ("a", W) ("b", W) "x.go:1" in
+  let ba := OrderPair "r" "g" ("b", W) ("a", W) "x.go:2" in
+  let known := ["b<a@g"] in
+  let ord := [ab; ba] in
+  let p1 := [Acq "a" W; Acq "b" W; Rel "b" W; Rel "a" W] in
+  let p2 := [Acq "b" W; Acq "a" W; Rel "a" W; Rel "b" W] in
+  forallb (order_ok (rank_of (computed_ranks (checked_order known ord)))) (checked_order known ord) = true /\
+  conforms_order ord [] p1 = true /\ conforms_order ord [] p2 = true /\
+  conforms_order (checked_order known ord) [] p1 = true /\
+  uses_listed known ord [] p2.
+Proof. exact uses_listed_example. Qed.
+Print Assumptions C05_uses_listed_example.
+
+Example C05_whole_table_example :
+  let tbl := [Access "r" "fn" "querylog.queryLog.buffer" true
+                [("querylog.queryLog.bufferLock", W)] "x.go:1"] in
+  let ord := [OrderPair "r" "fn" ("dnsforward.Server.serverLock", R)
+                ("querylog.queryLog.bufferLock", W) "x.go:2"] in
+  let p := [Acq "dnsforward.Server.serverLock" R; Acq "querylog.queryLog.bufferLock" W;
+            Wr "querylog.queryLog.buffer"; Rel "querylog.queryLog.bufferLock" W;
+            Rel "dnsforward.Server.serverLock" R] in
+  forallb (access_ok_ro (never_written tbl)) (checked [] tbl) = true /\
+  forallb (order_ok (rank_of (computed_ranks ord))) (checked_order [] ord) = true /\
+  conforms tbl [] p = true /\ conforms_order ord [] p = true.
+Proof. exact whole_table_example. Qed.
+Print Assumptions C05_whole_table_example.
+
+Example C05_conforming_whole_thread :
+  let p := [Acq "home.homeContext.controlLock" W; Acq "client.Storage.mu" W;
+            Wr "client.index.nameToUID"; Rel "client.Storage.mu" W;
+            Rel "home.homeContext.controlLock" W] in
+  conforms accesses [] p = true /\ conforms_order lock_order [] p = true.
+Proof. exact conforming_whole_thread. Qed.
+Print Assumptions C05_conforming_whole_thread.
 
 Example C05_conforming_thread :
   conforms checked_accesses []
